@@ -66,7 +66,10 @@ var zzScalars = []string{"0", "1", "2", "3", "7", "8", "15", "16", "17", "255", 
 	"FFFFFFFEFFFFFFFFFFFFFFFFFFFFFFFF7203DF6B21C6052B53BBF40939D54123", // n
 	"FFFFFFFEFFFFFFFFFFFFFFFFFFFFFFFF7203DF6B21C6052B53BBF40939D54124", // n+1
 	"7FFFFFFF7FFFFFFFFFFFFFFFFFFFFFFFB901EFB590E30295A9DDFA049CEAA092", // about n/2
-	"FFFFFFFFFFFFFFFFFFFFFFFFFFFFFFFFFFFFFFFFFFFFFFFFFFFFFFFFFFFFFFFF"}
+	"FFFFFFFFFFFFFFFFFFFFFFFFFFFFFFFFFFFFFFFFFFFFFFFFFFFFFFFFFFFFFFFF",
+	"100000000000000000000000000000000",                                 // 2^128: a long run of zero digits
+	"100000000000000000000000000000000000000000000000001",               // 2^200 + 1
+	"8000000000000000000000000000000000000000000000000000000000000000"} // 2^255
 
 // H03-grouplaw-special: addition, doubling, scalar and base-point multiplication return the
 // mathematical group result on the special cases the formulas do not cover by themselves:
@@ -75,13 +78,13 @@ var zzScalars = []string{"0", "1", "2", "3", "7", "8", "15", "16", "17", "255", 
 //
 //verif:property C03
 //verif:expect-reach end
-//verif:bound concrete points [k]G and [j]G for k, j in a fixed list of 19 scalars (thorough; quick: k in {1,n-6,n}, j = 1, 0..1 leading zero bytes) (0,1,2,3,7,8,15..17,255,256,65535,65536,n-6,n-1,n,n+1,~n/2,2^256-1), all pairs for Add; scalars given with 0..2 leading zero bytes; the real field and point arithmetic is executed, against an affine textbook reference over big integers
+//verif:bound concrete points [k]G and [j]G for k, j in a fixed list of 22 scalars (thorough; quick: k in {1,n-6,n,2^200+1}, j = 1, 0..1 leading zero bytes) (0,1,2,3,7,8,15..17,255,256,65535,65536,n-6,n-1,n,n+1,~n/2,2^256-1), all pairs for Add; scalars given with 0..2 leading zero bytes; the real field and point arithmetic is executed, against an affine textbook reference over big integers
 //verif:outside points and scalars outside the list (a universal statement needs the 256-bit field arithmetic symbolically, which is out of reach: DESIGN.md)
 //verif:unwind 600
 func zzH_c03_grouplaw_special() {
 	c := P256Sm2()
 	// quick tier: a sub-list of the scalars and of the second points
-	ks, js := []int{1, 13, 15}, []int{1}
+	ks, js := []int{1, 13, 15, 20}, []int{1}
 	if vTier() == 1 {
 		ks, js = nil, nil
 		for i := range zzScalars {
